@@ -34,3 +34,11 @@ def handlersOk : Bool :=
 def fieldMapsOk : Bool := stubsOk && handlersOk
 
 end P9.Client
+
+namespace P9.Client
+/-- the fid pool's Get / Put sites, as (method, operation, argument) -/
+def fidPoolSitesOk : Bool :=
+  Gen.fidPoolOps == [("Attach", "Get", ""), ("Attach", "Put", "id"), ("Close", "Put", "uint64(c.fid)"),
+    ("Remove", "Put", "uint64(c.fid)"), ("Walk", "Get", ""), ("Walk", "Put", "id"),
+    ("WalkGetAttr", "Get", ""), ("WalkGetAttr", "Put", "id"), ("xattrWalkRead", "Get", ""), ("xattrWalkRead", "Put", "id")]
+end P9.Client
